@@ -1,2 +1,12 @@
+(* GENERATED from /repo by harness/c16.py on every run; do not edit *)
 From Coq Require Import ZArith List.
-Definition kvs_get_catches_fnf : bool := false.
+Import ListNotations.
+Open Scope Z_scope.
+Definition kvs_get_catches_fnf : bool := true.
+Definition kvs_use_fsync : bool := true.
+Definition key_to_file_path_identity : bool := true.
+Definition default_max_src : Z := 1048576.
+Definition df_concat_old_first : bool := true.
+Definition df_sort_stable : bool := true.
+Definition df_keep_first : bool := true.
+Definition table_get_missing_undefined : bool := true.
